@@ -361,7 +361,21 @@ pub fn run(ctx: &Ctx, st: &mut Stats) {
         let k = *rng.pick(&[K::AddDays, K::SubDays, K::TsAddDays, K::TsSubDays]);
         let a = if matches!(k, K::TsAddDays | K::TsSubDays) { (base_s * SEC + rng.range_i64(0, 999_999)).min(TS_MAX) } else { base_s * SEC };
         let c = C::af(k, a, f);
-        st.eval_h(c.hash(k as u64), &c, check);
+        { let (an, td, ks) = crate::primers::g_context(c.a, c.b); crate::primers::eval_sched(st, rng, c.hash(k as u64), &c, &an, td, &ks, check); }
+    });
+    // history: the same call twice in a row where the sum lands just past either end of the range (the first answer,
+    // an error, must also be the second)
+    let nrep = ctx.tier.pick(100, 100_000, 1_000_000);
+    ctx.par(st, "history: a call whose result lies just outside the range, repeated", false, 0, nrep, |st, i, rng| {
+        let o = if rng.chance(1, 2) { ORA_MAX - rng.range_i64(0, 400 * 86_400) * SEC } else { rng.range_i64(TS_MIN / SEC, ORA_MAX / SEC) * SEC };
+        let edge = if i % 4 == 3 { TS_MIN } else { ORA_MAX };
+        let e = *rng.pick(&[500_000i64, 500_001, 600_000, 700_000, 999_999, 1_000_000, 1_500_000, -500_000, -600_000, 499_999]);
+        let e = if edge == TS_MIN { -e } else { e };
+        let f = (edge - o + e) as f64 / DAY_US as f64;
+        let k = *rng.pick(&[K::AddDays, K::TsAddDays]);
+        let c = C::af(k, o, f);
+        let c2 = C::af(if k == K::AddDays { K::SubDays } else { K::TsSubDays }, o, -f);
+        st.eval_hist(mix(c.hash(k as u64 + 90), i as u64), vec![c, c, c2, c2, c], check);
     });
     let n2 = ctx.tier.pick(500, 1_000_000, ctx.big(20_000_000, 200_000_000));
     ctx.par(st, "random: oracle-date x interval / difference / conversion", false, 0, n2, |st, _, rng| {
@@ -374,7 +388,7 @@ pub fn run(ctx: &Ctx, st: &mut Stats) {
             4 => C::ab(K::FromTs, rng.range_i64(TS_MIN, TS_MAX), 0),
             _ => C::ab(K::TryUsecs, rng.range_i64(TS_MIN - DAY_US, TS_MAX + DAY_US), 0),
         };
-        st.eval_h(c.hash(c.k as u64 + 50), &c, check);
+        { let (an, td, ks) = crate::primers::g_context(c.a, c.b); crate::primers::eval_sched(st, rng, c.hash(c.k as u64 + 50), &c, &an, td, &ks, check); }
     });
 }
 
